@@ -35,6 +35,8 @@ func runC02(c *Check, tier string) {
 	ruleRecordedOutputsComparedAsSets(c, "R02o")
 	useFamily(c, "R02k", famGate, 8)
 	useFamily(c, "R02l", famRestore, 20)
+	// the key of an unchanged target is the same in every process: no map-ordered write into the hasher
+	shareRule(c, "R02p", "every unordered collection is sorted before it is written to a hasher (same obligations as R09a)", 9, "R09a", func(sub *Check) { ruleR09a(sub) }, nil)
 }
 
 // R02g: the result writer always stores (a no-op rebuild can only hit on what the last successful
